@@ -4,6 +4,7 @@ package p2p
 
 import (
 	"context"
+	"errors"
 	"time"
 
 	"github.com/google/uuid"
@@ -40,10 +41,16 @@ type zz17Host struct {
 	inWrite  bool          // deliver the response synchronously inside Write
 	sent     chan []byte   // requests handed to the responder goroutine
 	requests int
+	opens    int
+	failOpen, failWrite, shortWrite bool
 }
 
 func (h *zz17Host) ID() peer.ID { return h.id }
 func (h *zz17Host) NewStream(ctx context.Context, p peer.ID, pids ...protocol.ID) (network.Stream, error) {
+	if h.failOpen {
+		h.opens++
+		return nil, errors.New("zz17: cannot open stream")
+	}
 	return &zz17Stream{h: h, to: p}, nil
 }
 func (h *zz17Host) SetStreamHandler(pid protocol.ID, handler network.StreamHandler) {}
@@ -59,6 +66,12 @@ func (s *zz17Stream) Reset() error { return nil }
 func (s *zz17Stream) Write(p []byte) (int, error) {
 	req := append([]byte{}, p...)
 	s.h.requests++
+	if s.h.failWrite {
+		return 0, errors.New("zz17: write failed")
+	}
+	if s.h.shortWrite {
+		return len(p) - 1, nil
+	}
 	if s.h.inWrite {
 		zz17Respond(s.h.mp, req, s.to)
 	} else {
@@ -158,5 +171,36 @@ func zzH_C17_response_vs_timeout(t *zzT) {
 		<-done // the responder (a stream handler on a real node) must not stay blocked
 		t.Assert(len(mp.resCh) == 0, "no pending entry is leaked")
 	}
+	t.Reach("end")
+}
+
+// C17.d: a request whose send fails (stream cannot be opened, write fails or is short, context already
+// cancelled) ends with that error and leaves no pending entry behind.
+//
+//zz:opt loop=4000
+//zz:stub time.Now zzStubNow
+//zz:stub time.After zz17After
+//zz:stub github.com/google/uuid.New zz17UUID
+//zz:stub github.com/libp2p/go-libp2p/core/network.WithUseTransient zzStubWithUseTransient
+func zzH_C17_send_failure_no_leak(t *zzT) {
+	mp, h := zz17New(t, true, 60*time.Millisecond)
+	h.failOpen = t.Bool("NewStream fails")
+	h.failWrite = t.Bool("Write fails")
+	h.shortWrite = t.Bool("short write")
+	failing := h.failOpen || h.failWrite || h.shortWrite
+	res, err := mp.sendRequestMessage(context.Background(), zzPeerID(0), "k", []byte{t.U8("payload")})
+	if failing {
+		t.Assert(err != nil && res == nil, "a failed send ends the request with an error")
+	} else {
+		t.Assert(err == nil && res != nil, "a successful send is answered")
+	}
+	t.Assert(len(mp.resCh) == 0, "no pending entry is leaked whatever the outcome of the send")
+	// the retry wrapper does not retry on a send error
+	before := h.requests + h.opens
+	_, rerr := mp.request(context.Background(), zzPeerID(0), "k", []byte{1})
+	if failing {
+		t.Assert(rerr != nil && h.requests+h.opens == before+1, "a send error is not retried")
+	}
+	t.Assert(len(mp.resCh) == 0, "no pending entry is leaked by the retry wrapper")
 	t.Reach("end")
 }
